@@ -257,11 +257,15 @@ func (c *Client) handleOne() {
 		//
 		// After a connection error (the stream ended, or a frame announced
 		// an impossible size) the position in the stream is lost: nothing
-		// that follows can be trusted to be a frame. End the connection so
-		// that later calls fail instead of decoding garbage.
-		if _, isConnErr := err.(ConnError); isConnErr {
-			c.conn.Close()
-		}
+		// that follows can be trusted to be a frame. After any other
+		// receive error (a reply for a tag nobody waits for, of the wrong
+		// type, or undecodable) all pending calls are failed below and
+		// their tags go back to the pool, while the server may still answer
+		// them: such a late reply would be handed to whichever later call
+		// got the same tag. End the connection in both cases so that later
+		// calls fail instead of decoding garbage or receiving another
+		// call's reply.
+		c.conn.Close()
 		c.pendingMu.Lock()
 		for _, resp := range c.pending {
 			resp.done <- err
